@@ -167,8 +167,13 @@ def queue_backlog_probe(n=700, stall=0.25):
             ready, _, _ = ORIG_SELECT([q], [], [], 1.0)
             if not ready:
                 if done.is_set():
-                    break
-                continue
+                    # the producer has finished: one more look (it may have finished between the two tests) and then
+                    # whatever is still inside is unreachable for a consumer that waits for readability
+                    ready, _, _ = ORIG_SELECT([q], [], [], 0.5)
+                    if not ready:
+                        break
+                else:
+                    continue
             got.append(q.get_nowait())
         t.join(5)
         if got != list(range(len(got))):
